@@ -91,16 +91,13 @@ inductive Ev where
   | tried (a : Nat) (src : Src) (ok : Bool)
       (longLived sysStopping skipNext stopping suspended pausedF running : Bool)
       (now : Nat) (latest : Option Nat) (processed : Int)
-  /-- `MessageProcessed` found `processed ≥ baseline + maxMessages` (int64 arithmetic) for entry `g` -/
+  /-- `MessageProcessed` found `processed ≥ baseline + maxMessages` for entry `g` -/
   | crossed (a g : Nat) (processed baseline maxMessages : Int)
   /-- `processMessageEntry` is about to passivate entry `g` -/
   | countFire (a g : Nat)
   /-- the actor's PostStop hook ran (doStop) -/
   | postStop (a : Nat) (wasRunning : Bool)
   deriving Repr, DecidableEq
-
-/-- Go's int64 addition wraps -/
-def wrap64 (x : Int) : Int := (x + 9223372036854775808) % 18446744073709551616 - 9223372036854775808
 
 def upd {α : Type} (f : Nat → α) (k : Nat) (v : α) : Nat → α := fun x => if x = k then v else f x
 
@@ -285,8 +282,9 @@ def mproc (s : State) (a : Nat) : State :=
   | none => s
   | some g =>
     if !(s.objs g).strat.isCount then s else
-    -- `threshold := entry.baseline + int64(entry.maxMessages)` in int64: wraps for huge maxMessages
-    if (s.actors a).processed < wrap64 ((s.objs g).baseline + (s.objs g).maxMessages) then s else
+    -- `current - entry.baseline < int64(entry.maxMessages)`: both counters are non-negative, the
+    -- difference cannot overflow int64 (fix 5123092; the sum `baseline + maxMessages` used to wrap)
+    if (s.actors a).processed - (s.objs g).baseline < (s.objs g).maxMessages then s else
     let t := (s.setE g fun e => { e with pending := true }).emit
       (.crossed a g (s.actors a).processed (s.objs g).baseline (s.objs g).maxMessages)
     if (s.objs g).paused || (s.objs g).enqueued then t else
